@@ -7,9 +7,8 @@ FIXED = '''        if mask_observed_with_missing_temperature and "observed" in d
             dropped_rows.loc[dropped_rows["temperature"].isna(), "observed"] = np.nan
 '''
 VARIANTS = [
-    # on the unrepaired tree: the repair silences R07.1/R07.2
-    dict(id="c07-repair-loc-store", property="C07", kind="repair", expect_gone="R07.1", file=D, old=NOOP, new=FIXED),
-    dict(id="c07-repair-where-form", property="C07", kind="repair", expect_gone="R07.2", file=D, old=NOOP,
+    # the repaired tree's .loc store and the equivalent Series.mask form are both accepted
+    dict(id="c07-benign-mask-form", property="C07", kind="benign", file=D, old=FIXED,
          new='''        if mask_observed_with_missing_temperature and "observed" in dropped_rows.columns:
             missing_T = dropped_rows["temperature"].isna()
             dropped_rows["observed"] = dropped_rows["observed"].mask(missing_T)
